@@ -3,9 +3,9 @@ import json
 import os
 import vlib
 
-PROPS = ['Rangers.Props.C20', 'Rangers.Props.C20B', 'Rangers.Props.C20Facts']
+PROPS = ['Rangers.Props.C20', 'Rangers.Props.C20B', 'Rangers.Props.C20C', 'Rangers.Props.C20D', 'Rangers.Props.C20Facts']
 DRIVERS = ['C20']
-KNOWN_KEYS = ('stale-iterator-in-block', 'id-hash-collision', 'refund-lost-second-account', 'unstake-opcode-escrows-untruncated-amount', 'reactivation-needs-more-than-minimum', 'pkcache-keeps-discarded-block', 'reader-panics-on-long-id')
+KNOWN_KEYS = ('stale-iterator-in-block', 'id-hash-collision', 'refund-lost-second-account', 'unstake-opcode-escrows-untruncated-amount', 'reactivation-needs-more-than-minimum', 'pkcache-keeps-discarded-block', 'reader-panics-on-long-id', 'operator-node-burns-10-rpg')
 META = dict(
     level='proof',
     technique='Lean 4 theorems (invariant + per-transaction refinement lemmas, all inputs, every key-hash/JSON codec) about an '
